@@ -497,23 +497,23 @@ Proof.
 Qed.
 
 (* the dense conditional of this file is C01's closed form on the assembled joint matrix *)
-Lemma dense_cov_is_c01 n t Kxx Ksx Tss Ainv :
-  meq t t (dense_cov n Tss Ksx Ainv) (post_cov n (blk n n Kxx (mT Ksx) Ksx Tss) Ainv).
+Lemma dense_cov_is_c01 n t Kxx Csx Tss Ainv :
+  meq t t (dense_cov n Tss Csx Ainv) (post_cov n (blk n n Kxx (mT Csx) Csx Tss) Ainv).
 Proof.
   unfold dense_cov, post_cov, Kss, Ksx.
-  assert (E1 : meq t t (sub n n (blk n n Kxx (mT Ksx) Ksx Tss)) Tss) by apply sub_blk_11.
-  assert (E2 : meq t n (sub n 0 (blk n n Kxx (mT Ksx) Ksx Tss)) Ksx) by (apply sub_blk_10; lia).
+  assert (E1 : meq t t (sub n n (blk n n Kxx (mT Csx) Csx Tss)) Tss) by apply sub_blk_11.
+  assert (E2 : meq t n (sub n 0 (blk n n Kxx (mT Csx) Csx Tss)) Csx) by (apply sub_blk_10; lia).
   apply msub_compat; [symmetry; exact E1|].
   apply mmul_compat; [symmetry; exact E2|].
   apply mmul_compat_r. apply mT_compat. symmetry. exact E2.
 Qed.
 
-Lemma dense_mean_is_c01 n t Kxx Ksx Tss Ainv mx ms y :
-  meq t 1 (dense_mean n ms Ksx Ainv (msub y mx))
-          (post_mean n (blk n n Kxx (mT Ksx) Ksx Tss) (vstack n mx ms) Ainv y).
+Lemma dense_mean_is_c01 n t Kxx Csx Tss Ainv mx ms y :
+  meq t 1 (dense_mean n ms Csx Ainv (msub y mx))
+          (post_mean n (blk n n Kxx (mT Csx) Csx Tss) (vstack n mx ms) Ainv y).
 Proof.
   unfold dense_mean, post_mean, mean_cache, Ksx.
-  assert (E2 : meq t n (sub n 0 (blk n n Kxx (mT Ksx) Ksx Tss)) Ksx) by (apply sub_blk_10; lia).
+  assert (E2 : meq t n (sub n 0 (blk n n Kxx (mT Csx) Csx Tss)) Csx) by (apply sub_blk_10; lia).
   apply madd_compat.
   - apply mmul_compat; [symmetry; exact E2|]. apply mmul_compat_r.
     intros i j Hi Hj. unfold msub, sub, vstack. cbn [Nat.add].
@@ -583,7 +583,7 @@ Proof.
     unfold mmul. rewrite sum_split.
     rewrite (sum_zero n) by (intros k Hk; unfold blk, mzero;
       destruct (Nat.ltb_spec (n + l) n); [lia|]; destruct (Nat.ltb_spec k n); [ring|lia]).
-    assert (E : sum f (fun i0 => blk n n Di mzero mzero Dfi (n + l) (n + i0) * mT (hstack n Wt Wft) (n + i0) j)
+    assert (E : sum f (fun i0 => blk n n Di mzero mzero Dfi (n + l)%nat (n + i0)%nat * mT (hstack n Wt Wft) (n + i0)%nat j)
                 = sum f (fun k => Dfi l k * mT Wft k j)).
     { apply sum_ext. intros k Hk. unfold blk, mT, hstack.
       destruct (Nat.ltb_spec (n + l) n); [lia|]. destruct (Nat.ltb_spec (n + k) n); [lia|].
@@ -641,3 +641,69 @@ Proof.
 Qed.
 
 End Proofs.
+
+(* ================================================================== witnesses (Qc, nat) *)
+
+(* the index as coded (lexicographic) is NOT the row of create_data_from_grid / the position in
+   GridKernel's K_{d-1} kron ... kron K_0: node (2,3) of a 4 x 5 grid gets 13, the node sits at 14 *)
+Lemma lex_vs_colmajor_witness :
+  exists gs ks, valid_multi gs ks /\ lex_index gs ks = 13%nat /\ colmajor_index gs ks = 14%nat
+                /\ colmajor_digits gs (lex_index gs ks) = [1; 3]%nat.
+Proof. exists [4; 5]%nat, [2; 3]%nat. cbn. repeat split; lia. Qed.
+
+Lemma qc_neq (a b : Qc) : Qc_eqb a b = false -> a <> b.
+Proof.
+  intros H E. subst b. unfold Qc_eqb in H.
+  assert (T : Qeq_bool (this a) (this a) = true) by (apply Qeq_bool_iff; reflexivity).
+  rewrite T in H. discriminate.
+Qed.
+
+(* the pairing used by the current code (lexicographic flat index into K_{d-1} kron ... kron K_0)
+   does not address the product kernel *)
+Lemma lex_into_grid_kernel_kron_witness :
+  exists (fs : list (nat * @M QcF)) ks ls,
+    valid_multi (map fst fs) ks /\ valid_multi (map fst fs) ls /\
+    grid_kernel_kron fs (lex_index (map fst fs) ks) (lex_index (map fst fs) ls)
+      <> prod_entry fs ks ls.
+Proof.
+  exists [(4%nat, @mI QcF); (5%nat, fun _ _ => 1%Qc)], [2; 3]%nat, [1; 0]%nat.
+  split; [cbn; repeat split; lia|]. split; [cbn; repeat split; lia|].
+  apply qc_neq. vm_compute. reflexivity.
+Qed.
+
+Lemma qc_char_not_2 : (@fadd QcF (@f1 QcF) (@f1 QcF)) <> (@f0 QcF).
+Proof. apply qc_neq. vm_compute. reflexivity. Qed.
+
+(* hypotheses of the Woodbury / SGPR theorems are satisfiable (n = 2, m = 1) *)
+Definition exR : @M QcF := of_list [[1%Qc]; [qc 1 2]].
+Definition exD : @M QcF := @mdiag QcF (fun _ => qc 1 4).
+Definition exDi : @M QcF := @mdiag QcF (fun _ => qc 4 1).
+Definition exCi : @M QcF := of_list [[qc 1 6]].
+Definition exAinv : @M QcF := of_list [[qc 4 3; qc (-4) 3]; [qc (-4) 3; qc 10 3]].
+Lemma ex_woodbury_hyps :
+  is_inverse 2 exD exDi /\ is_inverse 1 (woodbury_inner 2 1 exR exDi) exCi
+  /\ is_inverse 2 (madd (mmul 1 exR (mT exR)) exD) exAinv.
+Proof. repeat split; apply meqb_sound; vm_compute; reflexivity. Qed.
+
+Lemma ex_root_hyp : meq 1 1 (mmul 1 (of_list [[qc 1 2]]) (mT (of_list [[qc 1 2]]))) (of_list [[qc 1 4]] : @M QcF).
+Proof. apply meqb_sound. vm_compute. reflexivity. Qed.
+
+Lemma colmajor_is_sum gs ks : colmajor_sum 1 gs ks = colmajor_index gs ks.
+Proof. rewrite colmajor_sum_spec. apply Nat.mul_1_l. Qed.
+
+Lemma index_roundtrip gs ks : valid_multi gs ks ->
+  lex_digits gs (lex_index gs ks) = ks /\ colmajor_digits gs (colmajor_index gs ks) = ks
+  /\ (lex_index gs ks < prodn gs)%nat /\ (colmajor_index gs ks < prodn gs)%nat.
+Proof.
+  intros H. repeat split;
+    [apply lex_digits_index|apply colmajor_digits_index|apply lex_index_lt|apply colmajor_index_lt];
+    exact H.
+Qed.
+
+Lemma snapped_row_is_onehot (K : Fld) c (f : nat -> car) : (c < 4)%nat ->
+  (onehot c 0 + onehot c 1 + onehot c 2 + onehot c 3 = 1
+   /\ onehot c 0 * f 0%nat + onehot c 1 * f 1%nat + onehot c 2 * f 2%nat + onehot c 3 * f 3%nat = f c)%F.
+Proof. intros H. split; [exact (@onehot_sum_one K c H)|exact (@onehot_apply K c f H)]. Qed.
+
+Lemma ex_valid_multi_45 : valid_multi [4; 5]%nat [2; 3]%nat.
+Proof. cbn. repeat split; auto with arith. Qed.
